@@ -26,7 +26,7 @@ pub fn profile() -> Profile {
 pub fn run(ctx: &RunCtx) -> PropResult {
     let mut report = Report::default();
     let p = profile();
-    run_profile(ctx, &p, ctx.tier.pick(2500, 60_000), &mut report);
+    run_profile(ctx, &p, ctx.tier.pick(5000, 60_000), &mut report);
     PropResult {
         report,
         level: "exploration",
